@@ -116,6 +116,60 @@ pub fn named_like(c: &DayCase, allow_interval_isha: bool) -> bool {
         && (if ii == 0. { (9. ..=21.).contains(&ia) } else { allow_interval_isha && ii == 90. && ia == 0. })
 }
 
+/// Results depend on the inputs only.  Every property is stated as a function of the call's
+/// arguments, so the same call must give the same result whatever was computed before it on the same
+/// thread (memoisation keyed on too little, reused buffers, thread-locals).  `c` is computed first,
+/// then each neighbour of it (one argument changed) on the same thread, and the neighbour's result is
+/// compared with the one a fresh thread gives.  Returns false after reporting a failure.
+pub fn purity_probe(ctx: &mut Ctx, c: &DayCase) -> bool {
+    let flip_asr = c.with(|p| p.asr_shadow_ratio = if matches!(p.asr_shadow_ratio, AsrShadowRatio::Shafi) { AsrShadowRatio::Hanafi } else { AsrShadowRatio::Shafi });
+    let fajr_up = c.with(|p| *p.angles.get_mut(&Prayer::Fajr).unwrap() += 1.);
+    let isha_up = c.with(|p| *p.angles.get_mut(&Prayer::Isha).unwrap() += 1.);
+    let round = c.with(|p| p.round_seconds = if matches!(p.round_seconds, RoundSeconds::None) { RoundSeconds::NormalRounding } else { RoundSeconds::None });
+    let offset = c.with(|p| *p.minutes.get_mut(&Prayer::Asr).unwrap() += 7.);
+    let mut elev = c.clone();
+    elev.l.coords.elevation = Elevation::try_from((f64::from(c.l.coords.elevation) + 500.).min(8848.)).unwrap();
+    let mut wx = c.clone();
+    wx.w = Some(weather(900., -20.));
+    let mut next = c.clone();
+    next.rd += 1;
+    let pol = c.with(|p| {
+        p.extreme_latitude_method = match p.extreme_latitude_method {
+            ExtremeLatitudeMethod::NearestLatitudeAllPrayersAlways(l) => ExtremeLatitudeMethod::NearestLatitudeFajrIshaAlways(l),
+            ExtremeLatitudeMethod::NearestLatitudeFajrIshaAlways(l) => ExtremeLatitudeMethod::NearestLatitudeAllPrayersAlways(l),
+            ExtremeLatitudeMethod::NearestGoodDayAllPrayersAlways => ExtremeLatitudeMethod::NearestGoodDayFajrIshaInvalid,
+            ExtremeLatitudeMethod::None => ExtremeLatitudeMethod::NearestGoodDayFajrIshaInvalid,
+            _ => ExtremeLatitudeMethod::NearestGoodDayAllPrayersAlways,
+        }
+    });
+    for (what, v) in [("asr school", flip_asr), ("Fajr angle", fajr_up), ("Isha angle", isha_up), ("rounding", round), ("Asr offset", offset), ("elevation", elev), ("weather", wx), ("next day", next), ("policy", pol)] {
+        ctx.eval();
+        let _ = c.run();
+        let seq = v.run();
+        let v2 = v.clone();
+        let fresh = std::thread::spawn(move || v2.run()).join().unwrap_or(Err(()));
+        ctx.nontrivial(&format!("pure|{}|{}|{:.0}", what, c.rd % 97, f64::from(c.l.coords.latitude)));
+        if seq != fresh {
+            let mut input = v.to_json();
+            input["after"] = c.to_json();
+            input["kind"] = json!("day-after-day");
+            let show = |d: &Result<Day, ()>| d.as_ref().map(show_day).unwrap_or_else(|_| "PANIC".into());
+            ctx.fail(input, format!("after a call differing in {}: {} ; on a fresh thread: {}", what, show(&seq), show(&fresh)), "the result depends on the arguments only".into());
+            return false;
+        }
+    }
+    true
+}
+
+/// replay form of `purity_probe`: {"after": <day>, ...<day>}
+pub fn purity_replay(ctx: &mut Ctx, js: &[Value]) {
+    for v in js {
+        if let (Some(first), Some(_)) = (v.get("after").and_then(DayCase::from_json), DayCase::from_json(v)) {
+            purity_probe(ctx, &first);
+        }
+    }
+}
+
 pub fn cases_from(js: &[Value], reqs: &[String]) -> Vec<DayCase> {
     let mut v: Vec<DayCase> = js.iter().filter_map(DayCase::from_json).collect();
     v.extend(reqs.iter().filter_map(|r| DayCase::from_req(r)));
